@@ -3,10 +3,9 @@
 //
 // Oracle: X* = (a0×a1)×(b0×b1) computed exactly in integers (every float64
 // input is a dyadic rational; all four points are scaled by one common power
-// of two).  The sign of X* is fixed exactly by X*·(a0+a1) > 0 (every point of
-// an edge shorter than 180° has a positive dot product with the sum of its
-// endpoints) and cross-checked against X*·(b0+b1) > 0.  All claims are then
-// decided exactly with cross-multiplied integers:
+// of two).  The sign of X* is the one for which X* lies on both closed edges,
+// decided exactly and scale-free (see edgeSide).  All claims are then decided
+// exactly with cross-multiplied integers:
 //
 //	unit length      | |X|² − 1 | ≤ 5·2⁻⁵²           (the C++ IsUnitLength bound; Normalize's worst case is 4.5·2⁻⁵²)
 //	accuracy         |X × X*|² · 2¹⁰⁰ ≤ |X|² |X*|²   (sin²∠ ≤ (8·2⁻⁵³)², which is implied by ∠ ≤ 8·2⁻⁵³)
@@ -105,18 +104,32 @@ func bigSqrtRatio(a, b *big.Int) float64 {
 	return r
 }
 
+// edgeSide: p ≠ 0 lies exactly on the great circle of (q0,q1), n = q0×q1 ≠ 0.
+// With φ the angle of p from q0 towards q1 and α < π the edge length,
+// (q0×p)·n ∝ sin φ and (p×q1)·n ∝ sin(α−φ).  Returns +1 if p is on the closed
+// edge (both ≥ 0), −1 if −p is (both ≤ 0), 0 if neither.  Scale-free: no vector
+// needs to be exactly unit length (the bisector test p·(q0+q1) > 0 is not
+// scale-free and fails for nearly antipodal endpoints).
+func edgeSide(p, q0, q1, n exact.Vec) int {
+	s1 := exact.Dot(exact.Cross(q0, p), n).Sign()
+	s2 := exact.Dot(exact.Cross(p, q1), n).Sign()
+	switch {
+	case s1 >= 0 && s2 >= 0 && s1+s2 > 0:
+		return 1
+	case s1 <= 0 && s2 <= 0 && s1+s2 < 0:
+		return -1
+	}
+	return 0
+}
+
 // inClosedEdge: p, q0, q1 exactly coplanar; reports whether p lies on the
-// closed shorter arc q0..q1:  (q0×p)·n ≥ 0 and (p×q1)·n ≥ 0 with n = q0×q1 ≠ 0,
-// and p on the same side as q0+q1.
+// closed shorter arc q0..q1.
 func inClosedEdge(p, q0, q1 exact.Vec) bool {
 	n := exact.Cross(q0, q1)
 	if exact.IsZero(n) {
 		return false
 	}
-	if exact.Dot(exact.Cross(q0, p), n).Sign() < 0 || exact.Dot(exact.Cross(p, q1), n).Sign() < 0 {
-		return false
-	}
-	return exact.Dot(p, exact.Add(q0, q1)).Sign() > 0
+	return edgeSide(p, q0, q1, n) > 0
 }
 
 // ---------------------------------------------------------------------------
@@ -184,12 +197,12 @@ func checkQuad(c quad) ev.Outcome {
 	}
 	xs := exact.Cross(nA, nB)
 	collinear := exact.IsZero(xs)
-	sA := exact.Dot(xs, exact.Add(A0, A1)).Sign()
-	sB := exact.Dot(xs, exact.Add(B0, B1)).Sign()
 	if !collinear {
+		sA := edgeSide(xs, A0, A1, nA)
+		sB := edgeSide(xs, B0, B1, nB)
 		if sA == 0 || sB == 0 || sA != sB {
-			// CrossingSign says Cross but the exact great-circle intersection is
-			// not on the same side of both edges: a C03 matter, not judged here.
+			// CrossingSign says Cross but neither of ±X* lies on both closed
+			// edges: a C03 matter, not judged here.
 			o.Skip = true
 			return o
 		}
@@ -202,6 +215,9 @@ func checkQuad(c quad) ev.Outcome {
 	// product (and of the stable path's interpolated vector, which is ≈ 2|X*|)
 	// is subnormal or zero.
 	underflow := !collinear && xs2.BitLen()+8*E < -1014
+	// the same for the edge normals (only matters in the collinear branch,
+	// which converts them to float64 and normalises them).
+	normalUnderflow := exact.Norm2(nA).BitLen()+4*E < -1014 || exact.Norm2(nB).BitLen()+4*E < -1014
 
 	aLen := a1.Sub(a0.Vector).Norm()
 	bLen := b1.Sub(b0.Vector).Norm()
@@ -225,8 +241,15 @@ func checkQuad(c quad) ev.Outcome {
 	o.Counts = map[string]int{"path-" + path: 1}
 	o.Ratios = map[string]float64{}
 
+	// an edge within 16·2⁻⁵³ of 180°: a0+a1 is then of the size of the rounding
+	// errors of the endpoints, which the hemisphere correction relies on.
+	nearAntipodal := math.Min(a0.Add(a1.Vector).Norm(), b0.Add(b1.Vector).Norm()) < 0x1p-49
 	finding := func(kind string) string {
 		switch {
+		case !collinear && !underflow && nearAntipodal && kind == "wrong-hemisphere":
+			return "antipodal-wrong-hemisphere"
+		case collinear && normalUnderflow:
+			return "collinear-nuf-" + kind
 		case collinear:
 			return "collinear-" + kind
 		case underflow:
